@@ -188,14 +188,21 @@ func ruleCLIExit(p *Prog, r *Result) {
 
 // droppedErrorOK: callees whose error result may be ignored, with the reason.
 var droppedErrorOK = map[string]string{
-	"runtime/pprof.StartCPUProfile": "profiling aid, not part of evaluation",
-	"fmt.Fprintf":                   "diagnostic output",
-	"fmt.Printf":                    "version banner",
-	"fmt.Fprintln":                  "diagnostic output",
-	"(*bytes.Buffer).Write":         "bytes.Buffer.Write never fails",
-	"(*os.File).Close":              "closing a handle that was only read, or a temp file already written by OutputToFile",
+	"runtime/pprof.StartCPUProfile":                    "profiling aid, not part of evaluation",
+	"fmt.Fprintf":                                      "diagnostic output",
+	"fmt.Printf":                                       "version banner",
+	"fmt.Fprintln":                                     "diagnostic output",
+	"(*bytes.Buffer).Write":                            "bytes.Buffer.Write never fails",
+	"(*bytes.Buffer).WriteString":                      "documented: err is always nil",
+	"(*bytes.Buffer).WriteByte":                        "documented: err is always nil",
+	"(*bytes.Buffer).WriteRune":                        "documented: err is always nil",
+	"(*strings.Builder).Write":                         "documented: always returns a nil error",
+	"(*strings.Builder).WriteString":                   "documented: always returns a nil error",
+	"(*strings.Builder).WriteByte":                     "documented: always returns a nil error",
+	"(*strings.Builder).WriteRune":                     "documented: always returns a nil error",
+	"(*os.File).Close":                                 "closing a handle that was only read, or a temp file already written by OutputToFile",
 	"(*github.com/jessevdk/go-flags.Parser).WriteHelp": "help text",
-	"log.Printf": "debug log",
+	"log.Printf":                                       "debug log",
 }
 
 // ruleDroppedErrors implements C08.dropped: no error result of a call is discarded.
